@@ -911,6 +911,12 @@ def main_c13(tier, seed):
                 _VCASES = tlc.read_ndjson(os.path.join(res.outdir, "cases.ndjson"))
         finally:
             tlc.cleanup(res)
+        if tier == "thorough":       # histories of four events (model checking only; the replay enumerates its own 4-event histories)
+            r4 = tlc.run("Views", "Views_thorough.cfg", timeout=1800)
+            if r4.violated:
+                run.machinery("TLC: %s violated on Views_thorough\n%s" % (r4.violated, r4.stdout[-1200:]))
+            else:
+                run.add_tlc("Views_thorough", r4)
         r2 = tlc.run("Views", "Views_shared.cfg", timeout=600)
         run.notes["unrepaired_model_violates"] = r2.violated
         if r2.violated != "ReadIsFilter":
